@@ -225,4 +225,87 @@ example : algoHash 4 = some (some 5) ∧ (5 : Nat) ≠ 0 ∧ C23.hashAlg 5 = som
   ⟨by decide, by decide, rfl, by decide⟩
 example : algoHash 0 = none ∧ algoHash 1 = some none ∧ algoHash 17 = none := by decide
 
+/-! ### `dsa.Sign` -/
+
+theorem signLoop_range {p q g x n : Nat} {hash : Bytes} (fuel : Nat) (rnd : Bytes) {r s : Nat}
+    (hq : 0 < q) (h : signLoop p q g x hash n fuel rnd = .ok (r, s)) : 0 < r ∧ r < q ∧ 0 < s ∧ s < q := by
+  induction fuel generalizing rnd with
+  | zero => simp [signLoop] at h
+  | succ a ih =>
+    unfold signLoop at h
+    cases hk : readK n q rnd with
+    | none => rw [hk] at h; contradiction
+    | some kr =>
+      obtain ⟨k, rnd'⟩ := kr
+      rw [hk] at h
+      dsimp only at h
+      split at h
+      · exact ih rnd' h
+      · next hr =>
+        split at h
+        · exact ih rnd' h
+        · next hs =>
+          injection h with h
+          injection h with h1 h2
+          subst h1; subst h2
+          refine ⟨Nat.pos_of_ne_zero hr, Nat.mod_lt _ hq, Nat.pos_of_ne_zero hs, Nat.mod_lt _ hq⟩
+
+/-- every signature `dsa.Sign` returns has `0 < r < q` and `0 < s < q`, i.e. it passes the range checks of `dsa.Verify`
+    (`dsa_range`) and of `CheckSignatureFromKey` (`csfk_dsa_accept`), whatever the digest length. -/
+theorem dsaSign_range {p q g x : Nat} {hash rnd : Bytes} {r s : Nat} (h : dsaSign p q g x hash rnd = .ok (r, s)) :
+    0 < r ∧ r < q ∧ 0 < s ∧ s < q := by
+  unfold dsaSign at h
+  split at h
+  · contradiction
+  · next hc =>
+    exact signLoop_range 10 rnd (by omega) h
+
+/-- `dsa.Sign` refuses parameters whose group order is not a whole number of octets, as `dsa.Verify` does. -/
+theorem dsaSign_odd_order {p q g x : Nat} (hash rnd : Bytes) (hq : C23.bitLen q % 8 ≠ 0) :
+    dsaSign p q g x hash rnd = .err ∧ ∀ y r s, dsaVerify p q g y hash r s = false := by
+  constructor
+  · unfold dsaSign; simp [hq]
+  · intro y r s
+    unfold dsaVerify
+    split
+    · rfl
+    · split
+      · rfl
+      · split
+        · rfl
+        · split
+          · rfl
+          · rfl
+
+/-- neither side truncates the digest: both read it as ONE integer, so a digest and the same digest with leading zero
+    octets are the same message to `Sign` and to `Verify` (and a digest longer than `q` is NOT cut to the length of `q`:
+    a signer that cuts it and a verifier that does not would disagree on every digest longer than `q`). -/
+theorem dsa_digest_as_integer {p q g x y : Nat} (hash rnd : Bytes) (r s : Int) (z : Nat) :
+    dsaSign p q g x (List.replicate z 0 ++ hash) rnd = dsaSign p q g x hash rnd ∧
+    dsaVerify p q g y (List.replicate z 0 ++ hash) r s = dsaVerify p q g y hash r s := by
+  have hz : C23.os2ip (List.replicate z 0 ++ hash) = C23.os2ip hash := by
+    unfold C23.os2ip
+    rw [List.foldl_append]
+    congr 1
+    induction z with
+    | zero => rfl
+    | succ n ih => simp [List.replicate_succ, List.foldl_cons, ih]
+  constructor
+  · unfold dsaSign
+    split
+    · rfl
+    · generalize (10 : Nat) = fuel
+      induction fuel generalizing rnd with
+      | zero => rfl
+      | succ a ih =>
+        unfold signLoop
+        cases readK (C23.bitLen q / 8) q rnd with
+        | none => rfl
+        | some kr =>
+          obtain ⟨k, rnd'⟩ := kr
+          dsimp only
+          rw [hz, ih]
+  · unfold dsaVerify
+    rw [hz]
+
 end ZV.C03
